@@ -35,6 +35,8 @@ pub struct Entry {
     pub zero_sized_elems: bool,
     pub encode: fn(&Val) -> desert::Result<Vec<u8>>,
     pub encode_all: fn(&Val) -> desert::Result<AllSinks>,
+    /// writes the value into an existing stream (one context for several values)
+    pub encode_in: fn(&Val, &mut SerializationContext<Vec<u8>>) -> desert::Result<()>,
     pub decode_in: DecodeIn,
 }
 
@@ -86,6 +88,10 @@ fn encode<T: Bridge>(v: &Val) -> desert::Result<Vec<u8>> {
     desert::serialize_to_byte_vec(&T::from_val(v))
 }
 
+fn encode_in<T: Bridge>(v: &Val, ctx: &mut SerializationContext<Vec<u8>>) -> desert::Result<()> {
+    T::from_val(v).serialize(ctx)
+}
+
 fn encode_all<T: Bridge>(v: &Val) -> desert::Result<AllSinks> {
     let x = T::from_val(v);
     let vec = desert::serialize(&x, Vec::new())?;
@@ -108,7 +114,13 @@ fn encode_all<T: Bridge>(v: &Val) -> desert::Result<AllSinks> {
 }
 
 fn decode_in<T: Bridge>(ctx: &mut DeserializationContext<'_>) -> desert::Result<Val> {
-    Ok(T::deserialize(ctx)?.to_val())
+    let x = T::deserialize(ctx)?;
+    // only the library call is metered, not the conversion into the reference universe
+    crate::alloc::pause();
+    let v = x.to_val();
+    crate::alloc::resume();
+    drop(x);
+    Ok(v)
 }
 
 /// bytes still readable from a context, measured through the public `BinaryInput` impl
@@ -152,6 +164,7 @@ pub fn entry<T: Bridge>(name: &'static str, reg: &mut Registry) -> Entry {
         ty,
         encode: encode::<T>,
         encode_all: encode_all::<T>,
+        encode_in: encode_in::<T>,
         decode_in: decode_in::<T>,
     }
 }
